@@ -27,6 +27,8 @@ if wave:
 emphasis = ""
 if wave == "e":
     emphasis = ("EMPHASIS for this round: four earlier rounds already delivered numeric-scale triggers (tiny/huge units, large offsets, absolute-epsilon comparisons), special-case shortcuts, builder-call-order bugs, cooperating producer/consumer sites and fit-then-use-on-other-data sequences. Prefer instead: (i) EDGE SHAPES AND COUNTS that the statement's scope explicitly includes (a single row / single column / single class / k equal to n / exactly the minimum admissible size / an empty group after filtering), (ii) the RARELY USED public entry points and accessors named in the property (the second of two solvers, the non-default variant, the decision/score/probability accessor rather than predict, the vector-typed twin of a matrix method, the f32 instantiation), (iii) ERROR AND VALIDATION paths the statement mentions (an input that must be rejected is accepted only in one combination; an input that must be accepted is rejected at one boundary), (iv) ORDER OR TIE handling (which of two equal candidates wins, stability of a sort, first-vs-last maximum) where the statement fixes the answer, (v) state that survives between calls (a cached quantity not refreshed, a buffer reused without clearing, a counter not reset when the same object or the same thread-local is used twice).\n\n")
+if wave == "f":
+    emphasis = ("EMPHASIS for this round: five earlier rounds covered numeric-scale triggers, special-case shortcuts, builder-call-order bugs, cooperating producer/consumer sites, fit-then-use sequences, edge shapes, validation paths, tie handling and the api-trait impls. Prefer instead THIN PUBLIC DELEGATIONS AND CONVENIENCE LAYERS that sit next to the core implementation and are easy to break without touching it: factory functions and convenience constructors (`Distances::…()`, `Kernels::…()`, `…Parameters::default()` values and `with_*` defaults, `from_*`/`new_*` twins), free-function wrappers versus the struct API (e.g. `metrics::accuracy(..)` vs `Accuracy{}.get_score(..)`, `ClassificationMetrics::…`), the vector-typed twin of a matrix method and default trait methods overridden by a type, accessors/getters that return stored state (coefficients(), intercept(), components(), classes, n-something), `Display`/`Debug`-independent conversions between the crate's own types (matrix <-> row vector <-> Vec), and documented default parameter values that the statement's scope relies on. The change must still make the PROPERTY false for some in-scope use through such a layer while the core path stays correct.\n\n")
 if wave == "d":
     emphasis = ("EMPHASIS for this round: earlier rounds already explored plain numeric-scale triggers (data in a tiny or huge unit, a large common offset, absolute-epsilon comparisons) and single-line special-case shortcuts. Prefer instead: (i) TWO COOPERATING SITES that each look fine alone (a producer and a consumer that silently disagree about a convention: index base, row/column order, which of two buffers is current, units of a tolerance, whether a count includes the item itself); (ii) defects that need a MULTI-STEP SEQUENCE of public API calls to show (fit, then transform/predict on OTHER data; fit twice with the same object or parameters; builder methods called in a particular order; serialise, restore, then use a rarely used method); (iii) behaviour that depends on a particular random schedule, seed value, iteration limit or early-exit path; (iv) defects confined to ONE variant of a parameter (one kernel, one solver, one distance, one criterion, f32 only, one search backend, a non-default Option/boolean) while all other variants stay correct.\n\n")
 print(f"""You are a test engineer assessing how well a verification effort can detect regressions in a Rust machine-learning library (a fork of SmartCore). Your scratch copy of the repository is the git worktree {wt} (already created; work ONLY there — do not read, list or modify anything under /verif or /repo, and do not look for other people's work elsewhere on disk). The sandbox is offline: always pass `--offline` to cargo.
